@@ -1,4 +1,5 @@
 """C09 ZBDD set-family operations: wiring"""
+import eunits
 import ewrap
 import kinds
 
@@ -12,4 +13,7 @@ def run(ctx):
                 "subset::<VAL> with VAL 0/1/-1 = subset0/subset1/change) and compared with the set operation they "
                 "are named for; the Boolean view (and/or/xor/imp_strict/nand/nor/equiv/imp/ite/not) likewise.")
     kinds.wrappers(ctx, F, "zbdd", [kinds.BVS, kinds.BF], 30)
+    ctx.explain("E-UNITS: no variable number meets a level number (both are u32) in the rules crate(s).")
+    nfn, _ = eunits.run(ctx, F, crates=("oxidd_rules_zbdd",))
+    ctx.floor("E-UNITS", "function bodies analysed", nfn, 100)
     ctx.not_decided = "the level-comparison recursion, consistency after add_vars"
